@@ -48,6 +48,8 @@ type bed struct {
 	// would only re-check a harness-level condition and park again) from the
 	// choice; if every parked task is blocked they are all kept.
 	blocked func(t *sim.Task) bool
+	// waitLock[task]: the lock the task is waiting for in BeforeLock
+	waitLock map[int]verifhook.TryLocker
 	// debug log (UNITSIM_LOG=1): the complete event list of a replayed run
 	logOn bool
 	log   []string
@@ -72,7 +74,17 @@ func newBed(t *testing.T, c *sim.Case, res *sim.Result) *bed {
 		}
 		b.sched.Yield(owner, site)
 	}
-	verifhook.BeforeLockFn = func(l verifhook.TryLocker) { b.sched.BeforeLock(l) }
+	b.waitLock = map[int]verifhook.TryLocker{}
+	verifhook.BeforeLockFn = func(l verifhook.TryLocker) {
+		id := b.running
+		b.mu.Lock()
+		b.waitLock[id] = l
+		b.mu.Unlock()
+		b.sched.BeforeLock(l)
+		b.mu.Lock()
+		delete(b.waitLock, id)
+		b.mu.Unlock()
+	}
 	return b
 }
 
@@ -129,6 +141,25 @@ func (b *bed) spawn(name string, fn func(id int)) {
 	b.tasks = append(b.tasks, t)
 }
 
+// lockBlocked: the task is parked in BeforeLock and the lock is still held, so
+// releasing it would only make it look again and park again.
+func (b *bed) lockBlocked(t *sim.Task) bool {
+	if t.Site != "lockwait" {
+		return false
+	}
+	b.mu.Lock()
+	l := b.waitLock[t.ID]
+	b.mu.Unlock()
+	if l == nil {
+		return false
+	}
+	if l.TryLock() {
+		l.Unlock()
+		return false
+	}
+	return true
+}
+
 // step releases one parked task. The choice comes from the tape/PRNG; with
 // sticky > 1 the task released last is kept with probability 1-1/sticky (long
 // uninterrupted stretches reach deep interleavings that uniform switching
@@ -138,12 +169,13 @@ func (b *bed) step() bool {
 	if len(en) == 0 {
 		return false
 	}
-	if b.blocked != nil {
+	{
 		var free []*sim.Task
 		for _, t := range en {
-			if !b.blocked(t) {
-				free = append(free, t)
+			if b.lockBlocked(t) || (b.blocked != nil && b.blocked(t)) {
+				continue
 			}
+			free = append(free, t)
 		}
 		if len(free) > 0 {
 			en = free
